@@ -194,6 +194,10 @@ struct Tr<'a> {
     rstores: Option<String>,
     /// READ mode (t6r.rs): the function calls external layer constructors (parameter `ext`)
     uses_ext: bool,
+    /// READ mode (t6r2.rs): a method whose device is a field of `self` (`self.reader`): the field's name
+    reader_self: Option<String>,
+    /// READ mode (t6r2.rs): locals bound to `&mut self.reader`
+    reader_aliases: HashSet<String>,
 }
 
 fn path_last(p: &Path) -> String {
@@ -500,6 +504,8 @@ impl<'a> Tr<'a> {
             reader_owned: false,
             rstores: None,
             uses_ext: false,
+            reader_self: None,
+            reader_aliases: HashSet::new(),
         }
     }
 
@@ -533,6 +539,9 @@ impl<'a> Tr<'a> {
     /// Light type synthesis: the Lean type of a Rust expression when it is evident, else `None`.
     fn type_of(&self, e: &Expr) -> Option<String> {
         if let Some(t) = self.t6r_type_of(e) {
+            return Some(t);
+        }
+        if let Some(t) = self.t6r2_type_of(e) {
             return Some(t);
         }
         if self.mode == Mode::S {
@@ -1260,6 +1269,9 @@ impl<'a> Tr<'a> {
 
     fn pat_int_cond(&mut self, scrut: &str, p: &Pat) -> R<Option<String>> {
         // returns Some(condition) or None for wildcard / binding
+        if let Some(c) = self.t6r2_const_pat(p) {
+            return Ok(Some(format!("({scrut} == {c})")));
+        }
         match p {
             Pat::Lit(l) => {
                 if let Lit::Int(i) = &l.lit {
@@ -1564,6 +1576,12 @@ impl<'a> Tr<'a> {
         // READ mode: a translated READ-mode function; in result position its outcome is the
         // function's own, elsewhere (no `?`) the `Result` is a value
         if let Some((act, ty)) = self.r_callee(c)? {
+            if let Some(label) = self.t6r2_store_label(c) {
+                if tail {
+                    return self.t6r2_bind_store(act, label);
+                }
+                return Err("call of a store-recording function without `?`".into());
+            }
             if tail {
                 return Ok(self.bind_typed(act, ty));
             }
@@ -1576,6 +1594,10 @@ impl<'a> Tr<'a> {
             match name.as_str() {
                 "InvalidArchive" | "UnsupportedArchive" if c.args.len() == 1 && msg_ok(&c.args[0]) => {
                     return Ok(format!("Rs.ZipErr.{name}"));
+                }
+                // the one message that is part of the API: callers match on it
+                "UnsupportedArchive" if c.args.len() == 1 && t6r2::is_password_required(&c.args[0]) => {
+                    return Ok("Rs.ZipErr.PasswordRequired".into());
                 }
                 "Io" if c.args.len() == 1 => {
                     // io::Error::new(io::ErrorKind::K, message)
@@ -1665,6 +1687,11 @@ impl<'a> Tr<'a> {
     fn method_call(&mut self, m: &ExprMethodCall) -> R<String> {
         let name = m.method.to_string();
         let tail = std::mem::take(&mut self.tail);
+        if tail && self.mode == Mode::R {
+            if let Some(v) = self.t6r2_tail_method(m)? {
+                return Ok(v);
+            }
+        }
         // result position: `r.map(|x| v)` on the outcome of a translated function
         if tail && self.monadic() && name == "map" && m.args.len() == 1 {
             if let Expr::Closure(cl) = &m.args[0] {
@@ -1884,6 +1911,9 @@ impl<'a> Tr<'a> {
                 if let Some(r) = self.t6r_ext_try(m)? {
                     return Ok(r);
                 }
+                if let Some(r) = self.t6r2_self_call(m)? {
+                    return Ok(r);
+                }
                 // READ mode: reader.read_uNN::<LittleEndian>()? / read_exact(&mut buf)? / seek(..)? / stream_position()?
                 if let Some((act, ty, assign)) = self.reader_op(m)? {
                     return Ok(match assign {
@@ -2008,6 +2038,9 @@ impl<'a> Tr<'a> {
             }
             Expr::Call(c) => {
                 if let Some((act, ty)) = self.r_callee(c)? {
+                    if let Some(label) = self.t6r2_store_label(c) {
+                        return self.t6r2_bind_store(act, label);
+                    }
                     return Ok(self.bind_typed(act, ty));
                 }
                 let p = match &*c.func {
@@ -2271,8 +2304,8 @@ impl<'a> Tr<'a> {
                 let n = path_last(&ts.path);
                 let inner: Option<String> = match n.as_str() {
                     "Some" => ty.and_then(|t| t.strip_prefix("(Option ")).and_then(|x| x.strip_suffix(')')).map(|x| x.to_string()),
-                    "Ok" => ty.and_then(|t| t.strip_prefix("(Except ZErr ")).and_then(|x| x.strip_suffix(')')).map(|x| x.to_string()),
-                    "Err" => Some("ZErr".into()),
+                    "Ok" => ty.and_then(t6r2::split_except).map(|x| x.1),
+                    "Err" => Some(ty.and_then(t6r2::split_except).map(|x| x.0).unwrap_or_else(|| "ZErr".into())),
                     _ => None,
                 };
                 self.bind_pat_vars(&ts.elems[0], inner.as_deref());
@@ -2314,6 +2347,9 @@ impl<'a> Tr<'a> {
         match s {
             Stmt::Local(l) => {
                 if !cfg_on(&l.attrs) {
+                    return Ok(());
+                }
+                if self.t6r2_reader_alias(l) {
                     return Ok(());
                 }
                 if let Pat::Tuple(tp) = &l.pat {
@@ -2732,7 +2768,7 @@ impl<'a> Tr<'a> {
         let scrut_ty = self.type_of(&m.expr);
         let lhs_ty = lhs.and_then(|l| self.type_of(l));
         let scrut = self.expr(&m.expr)?;
-        if arms.iter().any(|a| matches!(a.pat, Pat::Lit(PatLit { lit: Lit::Int(_), .. }) | Pat::Range(_))) {
+        if arms.iter().any(|a| matches!(a.pat, Pat::Lit(PatLit { lit: Lit::Int(_), .. }) | Pat::Range(_)) || self.t6r2_const_pat(&a.pat).is_some()) {
             // integer patterns: an if / else chain, the last arm is the default (rustc checks exhaustiveness)
             if lhs.is_some() {
                 return Err("assignment from a statement-level match on integers".into());
@@ -3096,6 +3132,9 @@ impl<'a> Tr<'a> {
             Expr::Field(f) => {
                 if let (Expr::Path(p), Member::Named(n)) = (&*f.base, &f.member) {
                     if p.path.is_ident("self") {
+                        if self.reader_self.is_some() {
+                            return Err("assignment to a field of `self` in a method whose device is `self.reader`".into());
+                        }
                         self.emit(format!("self := {{ self with {n} := {v} }}"));
                         return Ok(());
                     }
@@ -3260,6 +3299,13 @@ fn sig_info(tr: &Tr, sig: &Signature, impl_generics: Option<&Generics>) -> R<(Fn
             impl_reader = true;
         }
     }
+    // a method whose device is a field of `self` (`self.reader: R`, `R: Read [+ Seek]` a parameter of the impl)
+    if tparam.is_none() && !impl_reader {
+        if let Some(sk) = t6r2::self_reader(tr.self_ty.as_deref(), sig, impl_generics) {
+            read = true;
+            seek = sk;
+        }
+    }
     // `ZipResult<R>` → W mode
     let zr: Option<&Type> = match &sig.output {
         ReturnType::Type(_, t) => match &**t {
@@ -3328,6 +3374,12 @@ fn translate_fn(reg: &Registry, failed: &HashSet<String>, self_ty: Option<&str>,
     }
     tr.seekable = fi.seek;
     tr.reader_owned = fi.mode == Mode::R && t6r::owned_reader(sig, impl_generics).is_some();
+    if fi.mode == Mode::R && tr.reader.is_none() {
+        if t6r2::self_reader(self_ty, sig, impl_generics).is_some() {
+            tr.reader_self = self_ty.and_then(t6r2::reader_field);
+        }
+    }
+    let mut mut_params: Vec<String> = vec![];
     tr.lean_name = lean_name.to_string();
     {
         let mut binders = String::from("{ω : Type}");
@@ -3367,17 +3419,24 @@ fn translate_fn(reg: &Registry, failed: &HashSet<String>, self_ty: Option<&str>,
                 k += 1;
                 let ty = tr.ty(&t.ty)?;
                 params.push(format!("({n} : {ty})"));
+                if matches!(&*t.pat, Pat::Ident(id) if id.mutability.is_some()) && fi.mode == Mode::R && tr.reader_self.is_some() {
+                    mut_params.push(n.clone());
+                }
                 tr.vars.insert(n, ty);
             }
         }
     }
     let _ = has_self;
     if fi.mode != Mode::Pure {
-        if mut_self {
+        if mut_self && tr.reader_self.is_none() {
             return Err("`&mut self` method returning ZipResult".into());
         }
-        if fi.mode == Mode::R && has_self {
+        if fi.mode == Mode::R && has_self && tr.reader_self.is_none() {
             return Err("READ-mode method with a self parameter".into());
+        }
+        for p in &mut_params {
+            tr.emit(format!("let mut {p} := {p}"));
+            tr.mut_vars.insert(p.clone());
         }
         let ret = fi.ret.clone().unwrap();
         tr.ret_ty = Some(ret.clone());
@@ -3388,7 +3447,7 @@ fn translate_fn(reg: &Registry, failed: &HashSet<String>, self_ty: Option<&str>,
             tr.emit(format!("let mut {p} := {p}"));
             tr.mut_vars.insert(p);
         }
-        if fi.mode == Mode::R && t6r::has_store(block) {
+        if fi.mode == Mode::R && (t6r::has_store(block) || t6r2::calls_store_fn(self_ty, block)) {
             tr.rstores = Some("stores_".into());
             tr.emit("let mut stores_ : Rs.Stores := []".into());
             tr.mut_vars.insert("stores_".into());
@@ -3417,6 +3476,7 @@ fn translate_fn(reg: &Registry, failed: &HashSet<String>, self_ty: Option<&str>,
             ps
         };
         if fi.mode == Mode::R && tr.rstores.is_some() {
+            t6r2::mark_store_fn(lean_name);
             writeln!(s, "def {lean_name}{ps} : Model.M ({ret} × Rs.Stores) := do").unwrap();
         } else if fi.mode == Mode::R {
             writeln!(s, "def {lean_name}{ps} : Model.M {ret} := do").unwrap();
@@ -3666,6 +3726,7 @@ fn main() {
                     for it in &all {
                         if let Item::Struct(st) = it {
                             if st.ident != name || !cfg_on(&st.attrs) { continue; }
+                            t6r2::register_reader_field(st);
                             let mut m = HashMap::new();
                             if let Fields::Named(n) = &st.fields {
                                 let mut tr = Tr::new(&reg, &no_failed, Some(name.clone()), 0);
